@@ -80,7 +80,22 @@ def arc_points(rng, cx, cy, rad, extent, n, noise=0.0):
              cy + (rad + rng.uniform(-noise, noise)) * math.sin(a0 + extent * i / (n - 1))] for i in range(n)]
 
 
+def lattice_circle(rng):
+    """integer-offset (Pythagorean) samples: with a concentric guess of integer radius every radial residual is the same
+    float, so the Gaussian weighting divides by a zero standard deviation"""
+    kq = rng.choice([1, 2, 3])
+    cx, cy = float(rng.randint(-4, 4)), float(rng.randint(-4, 4))
+    offs = [(3, 4), (4, 3), (-3, 4), (-4, 3), (3, -4), (4, -3), (-3, -4), (-4, -3), (5, 0), (0, 5), (-5, 0), (0, -5)]
+    rng.shuffle(offs)
+    pts = [[cx + kq * a, cy + kq * b] for a, b in offs[:rng.choice([5, 8, 12])]]
+    return cx, cy, 5.0 * kq, pts
+
+
 def gen_fit(rng):
+    if rng.random() < 0.2:
+        cx, cy, rad, pts = lattice_circle(rng)
+        g = [cx, cy, rad + rng.choice([-1.0, 1.0, 0.0])]
+        return {"k": "c09.fit", "pts": pts, "guess": g, "sigma": rng.choice([None, 2.0, 3.0, 2.0]), "truth": [cx, cy, rad], "noise": 0.0}
     cx, cy, rad = rng.uniform(-5, 5), rng.uniform(-5, 5), rng.uniform(0.5, 5)
     extent = rng.uniform(math.pi / 3, 2 * math.pi)
     noise = 0.0 if rng.random() < 0.6 else 0.01 * rad
@@ -91,6 +106,10 @@ def gen_fit(rng):
 
 
 def gen_problem(rng):
+    if rng.random() < 0.15:
+        cx, cy, rad, pts = lattice_circle(rng)
+        hist = [[cx, cy, rad + rng.choice([-1.0, 1.0, 0.0, 2.0])] for _ in range(rng.randint(1, 3))]
+        return {"k": "c09.problem", "pts": pts, "guess": [cx, cy, rad - 1.0], "sigma": rng.choice([1.0, 2.0]), "history": hist}
     cx, cy, rad = rng.uniform(-3, 3), rng.uniform(-3, 3), rng.uniform(0.5, 3)
     pts = arc_points(rng, cx, cy, rad, rng.uniform(1, 6), rng.choice([3, 6, 12]), 0.05 * rad)
     hist = [[cx + rng.uniform(-1, 1), cy + rng.uniform(-1, 1), rad * rng.uniform(0.5, 1.5)] for _ in range(rng.randint(1, 4))]
@@ -271,7 +290,9 @@ def oracle(c, r):
             return
         cx, cy, rad = r["x"], r["y"], r["r"]
         t = c["truth"]
-        if c["noise"] == 0.0 and c["sigma"] is None:
+        # exact samples: also under Gaussian clipping (sigma >= 2 keeps at least 3/4 of the points by Chebyshev, and
+        # any three exact samples determine the circle)
+        if c["noise"] == 0.0:
             if max(abs(cx - t[0]), abs(cy - t[1]), abs(rad - t[2])) > 1e-6 * max(1.0, t[2]):
                 yield ("fit-recovery", "exact samples of circle %r were fitted as %r" % (t, [cx, cy, rad]))
         if c["sigma"] is None:
